@@ -430,12 +430,16 @@ Qed.
 
 (* ---------- histories ---------- *)
 
-Fixpoint password_after (hash_ok : bytes -> bool) (stored : bytes) (h : list step) : bytes :=
+Fixpoint config_after (hash_ok : bytes -> bool) (st : bool * bytes) (h : list step) : bool * bytes :=
   match h with
-  | [] => stored
-  | SetPassword opt fresh :: r => password_after hash_ok (configure hash_ok stored opt fresh) r
-  | Request _ :: r => password_after hash_ok stored r
+  | [] => st
+  | SetPassword opt fresh :: r => config_after hash_ok (configure hash_ok st opt fresh) r
+  | Request _ :: r => config_after hash_ok st r
   end.
+
+(* the password in force after the option changes of h (requests do not matter) *)
+Definition password_after (hash_ok : bytes -> bool) (st : bool * bytes) (h : list step) : bytes :=
+  snd (config_after hash_ok st h).
 
 Fixpoint requests_in (h : list step) : nat :=
   match h with
@@ -456,11 +460,12 @@ Section HistoryProofs.
   (* the response to a request inside a history is the single-request response computed with
      the password configured by the option changes before it: earlier requests (successful
      logins included) leave no trace in the verdict *)
-  Lemma history_stateless h1 : forall stored s q h2,
-    exists s1, nth_error (run stored s (h1 ++ Request q :: h2)) (requests_in h1)
-               = Some (snd (handle St D inner av (password_after hash_ok stored h1) a s1 q)).
+  Lemma history_stateless h1 : forall st s q h2,
+    exists s1, nth_error (run st s (h1 ++ Request q :: h2)) (requests_in h1)
+               = Some (snd (handle St D inner av (password_after hash_ok st h1) a s1 q)).
   Proof.
-    induction h1 as [|[opt fresh|q0] h1 IH]; intros stored s q h2; simpl.
+    unfold password_after.
+    induction h1 as [|[opt fresh|q0] h1 IH]; intros st s q h2; simpl.
     - exists s. reflexivity.
     - apply IH.
     - apply IH.
@@ -468,16 +473,16 @@ Section HistoryProofs.
 End HistoryProofs.
 
 Lemma history_revoked_refused (St D : Type) (inner : nat -> meth -> St -> request -> St * (N * D))
-      av hash_ok stored s h1 q h2 :
-  not_static mitmweb q -> creds_invalid av (password_after hash_ok stored h1) q ->
-  exists rs, nth_error (run_history St D inner av hash_ok mitmweb stored s (h1 ++ Request q :: h2)) (requests_in h1) = Some rs
+      av hash_ok (st : bool * bytes) s h1 q h2 :
+  not_static mitmweb q -> creds_invalid av (password_after hash_ok st h1) q ->
+  exists rs, nth_error (run_history St D inner av hash_ok mitmweb st s (h1 ++ Request q :: h2)) (requests_in h1) = Some rs
     /\ rs_cookie rs = false /\ (forall d, rs_body rs <> BInner d)
     /\ (rs_status rs = 400 \/ rs_status rs = 403 \/ rs_status rs = 404 \/ rs_status rs = 405)%N.
 Proof.
   intros HS HC.
-  destruct (history_stateless St D inner av hash_ok mitmweb h1 stored s q h2) as [s1 E].
+  destruct (history_stateless St D inner av hash_ok mitmweb h1 st s q h2) as [s1 E].
   eexists. split; [exact E|].
-  destruct (unauthenticated_refused St D inner av (password_after hash_ok stored h1) s1 q HS HC) as (_ & R2 & R3 & R4).
+  destruct (unauthenticated_refused St D inner av (password_after hash_ok st h1) s1 q HS HC) as (_ & R2 & R3 & R4).
   auto.
 Qed.
 
@@ -489,6 +494,6 @@ Definition rotate_history : list step :=
   [SetPassword old_pw []; Request (q_with_token old_pw); SetPassword new_pw []; Request (q_with_token old_pw); Request (q_with_token new_pw)].
 
 Lemma history_nonvacuous :
-  map rs_status (run_history nat unit unit_inner no_argon (fun _ => true) mitmweb secret O rotate_history)
+  map rs_status (run_history nat unit unit_inner no_argon (fun _ => true) mitmweb (false, secret) O rotate_history)
   = [200; 403; 200]%N.
 Proof. vm_compute. reflexivity. Qed.
